@@ -21,7 +21,7 @@ Definition pair_moreau (n : nat) (P : @cpair R) : Prop :=
     pp P (negb b) w (1 / s) (vscal (1 / s) x) = Ok q -> vadd p (vscal s q) = x.
 Definition pair_ok (n : nat) (P : @cpair R) : Prop :=
   pair_len n P /\ pair_moreau n P /\
-  forall w, wpos w -> length w = n ->
+  forall w, wpos w -> length w = n -> pw P w = true ->
   (forall b x y vx vy, length x = n -> length y = n -> pv P b w x = Ok vx -> pv P (negb b) w y = Ok vy ->
      match eadd vx vy with EFin v => wdot w x y <= v | EPInf => True | EJunk => False end) /\
   (forall b x g vx vg, length x = n -> pg P b w x = Ok g -> pv P b w x = Ok vx -> pv P (negb b) w g = Ok vg ->
@@ -43,6 +43,17 @@ Fixpoint wf (n : nat) (e : fxR) : Prop :=
   | FQuadPert f a u _ => 0 <= a /\ length u = n /\ wf n f
   | FSep2 k f g => (k <= n)%nat /\ wf k f /\ wf (n - k) g
   | FPair _ P => pair_ok n P
+  end.
+
+(* the weights are admissible for every abstract pair of the tree (a power-space pair needs the same
+   weights on every component); trivially true for all other nodes *)
+Fixpoint wadm (w : Rvec) (e : fxR) : Prop :=
+  match e with
+  | FPair _ P => pw P w = true
+  | FSep2 k f g => wadm (firstn k w) f /\ wadm (skipn k w) g
+  | FLeft _ f | FRight _ f | FRightVec _ f | FScalarSum f _ | FTransl f _ | FQuadPert f _ _ _ | FDefConj f | FBreg f => wadm w f
+  | FSum f g | FInfConv f g => wadm w f /\ wadm w g
+  | _ => True
   end.
 
 Ltac fxind e :=
